@@ -108,7 +108,10 @@ def big_pipe(ctx, verdict, cases, name="segsegx"):
             pts = [ec.tla_pt(i_in[2 * j:2 * j + 2]) for j in range(4)]
             ps = "<<" + ", ".join(ec.tla_pt(i_out[2 * j:2 * j + 2]) for j in range(len(i_out) // 2)) + ">>"
             sc = max(1, max(abs(v) for v in i_in))
-            parts.append('SegSegOK(%s, %s, %s, %s, "%s", %s, %d)' % (pts[0], pts[1], pts[2], pts[3], row["t"], ps, sc))
+            if c["fam"].startswith("float/"):           # float tier: classification, common endpoint, overlap ends - no accuracy claim
+                parts.append('SegSegClassOK(%s, %s, %s, %s, "%s", %s)' % (pts[0], pts[1], pts[2], pts[3], row["t"], ps))
+            else:
+                parts.append('SegSegOK(%s, %s, %s, %s, "%s", %s, %d)' % (pts[0], pts[1], pts[2], pts[3], row["t"], ps, sc))
             # Result.HasIntersection goes with the reported class
             if row.get("has") != (row["t"] != "none"):
                 parts.append("FALSE")
